@@ -471,9 +471,9 @@ def base_snapshot(key, strlen):
 class Reorder(Unit):
     name = "reorder-glyphs"
     rule = ("reorderGlyphs(font, order): EVERY permutation of the non-.notdef glyphs for fonts with <=5 (thorough 6) of them (generated pool: glyf, CFF, CFF2, kern, vmtx, GSUB single/ligature/context, GPOS pair/class/mark/mkmk, GDEF, gvar/HVAR/MVAR); for larger corpus fonts the generators rotation by 1 and n/2, reversal, adjacent transpositions and (1 k) swaps (all in thorough, 10 rotating with the seed in quick); "
-            "the first two permutations of every font also on a lazily loaded font and on a font object that was fully decoded and saved once before; fonts include variants with HVAR/VVAR delta sets indexed by glyph ID (no advance map); font saved and reloaded; oracle: by glyph name, HarfBuzz outline + horizontal and vertical advance at {default, each axis min/max, all-max}, nominal glyph per code point, shaping of all strings of length <=2 (thorough 3) over 6 characters identical; distinct = (font, permutation)")
+            "the first two permutations of every font also on a lazily loaded font and on a font object that was fully decoded and saved once before (also with the caller permuting the list returned by getGlyphOrder() in place); fonts include variants with HVAR/VVAR delta sets indexed by glyph ID (no advance map); font saved and reloaded; oracle: by glyph name, HarfBuzz outline + horizontal and vertical advance at {default, each axis min/max, all-max}, nominal glyph per code point, shaping of all strings of length <=2 (thorough 3) over 6 characters identical; distinct = (font, permutation)")
     chunk = 8
-    required_witnesses = ("GSUB font", "GPOS font", "CFF font", "gvar font", "kern table", "full permutation group", "lazily loaded font", "vertical advance varies (VVAR)", "font saved once before the reordering")
+    required_witnesses = ("GSUB font", "GPOS font", "CFF font", "gvar font", "kern table", "full permutation group", "lazily loaded font", "vertical advance varies (VVAR)", "font saved once before the reordering", "glyph order list permuted in place")
 
     def setup(self, tier, seed):
         load_fonts()
@@ -495,13 +495,16 @@ class Reorder(Unit):
                     # ... and on a font object that was saved once before (whatever a compile caches -
                     # glyph-name to glyph-ID maps, packed glyph data - is then in place)
                     yield [key, p, "saved-before"]
+                    # ... and with the caller permuting the very list getGlyphOrder() returned, in place
+                    yield [key, p, "saved-before-aliased"]
 
     def check(self, case, rec):
         key, p = case[:2]
         lazy = case[2] if len(case) > 2 else None
         strlen = 2
         before = base_snapshot(key, strlen)
-        saved_before = lazy == "saved-before"
+        aliased = lazy == "saved-before-aliased"
+        saved_before = lazy == "saved-before" or aliased
         font = TTFont(io.BytesIO(_FONTS[key]), lazy=None if saved_before else lazy)
         if saved_before:
             # decoded first: an undecoded table is copied, not compiled, and fills no cache
@@ -514,7 +517,13 @@ class Reorder(Unit):
         if len(set(order)) != len(order):
             return
         new_order = apply_perm(order, p)
-        reorderGlyphs(font, new_order)
+        if aliased:
+            live = font.getGlyphOrder()
+            live[:] = new_order
+            rec.witness("glyph order list permuted in place")
+            reorderGlyphs(font, live)
+        else:
+            reorderGlyphs(font, new_order)
         buf = io.BytesIO()
         font.save(buf)
         data = buf.getvalue()
@@ -522,7 +531,12 @@ class Reorder(Unit):
         if saved_order != new_order and len(set(order)) == len(order) and TTFont(io.BytesIO(_FONTS[key]), lazy=True).getGlyphOrder() == order and not any(n.startswith("glyph0") for n in order) and not has_dup_names(_FONTS[key]):
             rec.violation("reorder:glyph-order", "%s %s: saved font has glyph order %s, requested %s" % (key, p, saved_order[:8], new_order[:8]))
         after = snapshot(data, strlen, order=new_order)
-        compare(before, after, 1, rec, "reorder", "%s %s" % (key, p))
+        prefix = "reorder"
+        if aliased:
+            src = TTFont(io.BytesIO(_FONTS[key]), lazy=True)
+            implicit = ("HVAR" in src and getattr(src["HVAR"].table, "AdvWidthMap", None) is None) or ("VVAR" in src and getattr(src["VVAR"].table, "AdvHeightMap", None) is None)
+            prefix = "reorder-aliased[implicit-advance-map]" if implicit else "reorder-aliased"
+        compare(before, after, 1, rec, prefix, "%s %s" % (key, p))
         rec.nontrivial()
         if "GSUB" in font:
             rec.witness("GSUB font")
